@@ -9,7 +9,6 @@
 package main
 
 import (
-	"bytes"
 	"encoding/binary"
 	"fmt"
 	"os"
@@ -761,62 +760,11 @@ func bfsSection(x *h.X) {
 	fmt.Printf("[C11] BFS states=%d transitions=%d pruned=%d depth=%d fixpoint=%v\n", st.States, st.Transitions, st.Pruned, st.Depth, st.Fixpoint)
 }
 
-// idDrawSection: the random-ID draw is the big-endian value of 4 tape bytes, for every byte position and
-// a set of byte values, and a collision with ANY unavailable id is redrawn (k = 1..3 consecutive collisions).
-func idDrawSection(x *h.X) {
-	pos := x.Choose("byte-position", 4)
-	vals := []byte{0, 1, 0x7f, 0x80, 0xfe, 0xff}
-	tp := tape.NewTape(nil)
-	tape.Bind(tp)
-	defer tape.Unbind()
-	for _, v := range vals {
-		for k := 0; k <= 3; k++ {
-			tp.Rewind()
-			var idb [4]byte
-			copy(idb[:], []byte{0x11, 0x22, 0x33, 0x44})
-			idb[pos] = v
-			want := binary.BigEndian.Uint32(idb[:])
-			km := keyset.NewManager()
-			// occupy k ids, then script k colliding draws followed by the wanted id
-			var occupied []uint32
-			for j := 0; j < k; j++ {
-				id := uint32(0xA0000000 + j)
-				kk, _ := aesgcm.NewKey(secretdata.NewBytesFromData(ref.KeyBytes("c11", 16), insecuresecretdataaccess.Token{}), id, gcmTink)
-				if _, err := km.AddKey(kk); err != nil {
-					x.Fail("setup", "AddKey: %v", err)
-					return
-				}
-				occupied = append(occupied, id)
-			}
-			m := tp.Mark()
-			for j, id := range occupied {
-				tp.Answer(m+j, be32(id))
-			}
-			tp.Answer(m+k, idb[:])
-			got, err := km.Add(aead.AES128GCMKeyTemplate())
-			x.Eval(1)
-			if err != nil || got != want {
-				x.Fail("id-from-entropy", "Add after %d forced collisions: id=%#x err=%v, want %#x (big-endian of drawn bytes %x)", k, got, err, want, idb)
-			}
-			draws := tp.Since(m)
-			if len(draws) < k+1 || draws[k].N != 4 {
-				x.Fail("id-draw-shape", "expected %d four-byte id draws, saw %v", k+1, draws)
-			}
-			if !bytes.Equal(be32(got), idb[:]) {
-				x.Fail("id-from-entropy", "id bytes %x != drawn bytes %x", be32(got), idb)
-			}
-		}
-	}
-	x.NonTrivial()
-	x.Outcome("ok")
-}
-
 func main() {
 	setup()
 	h.Main("C11", "model_checking",
 		"explicit-state BFS to fixpoint over the real keyset.Manager: alphabet = Add(template: 3 valid + nil + unknown prefix + unknown type) x scripted random-ID answers, AddNewKeyFromParameters, AddKey(nil / key without ID requirement / key requiring each domain id), SetPrimary/Enable/Disable/Delete for every id in {1,2,3,0xFFFFFFFF,7,0x21}, NewManagerFromHandle(Handle()); start states: empty manager and two managers parsed from keysets with ENABLED/DISABLED/DESTROYED keys; bound: total number of id-consuming add operations per history. Every transition is compared with a list/map reference model and the property's invariants are evaluated on Handle() in every state; earlier handles are re-dumped after every operation.",
 		[]h.Section{
 			{Name: "manager-bfs", Body: bfsSection, Bound: -1, Serial: true},
-			{Name: "id-draw", Body: idDrawSection, Bound: -1},
 		})
 }
